@@ -204,7 +204,7 @@ fn cli_job(ctx: &Ctx, job: usize, iters: u64) -> Stats {
 
 pub fn run(ctx: &Ctx) -> (Stats, Spec) {
     let mut st = Stats::new();
-    let (iters, cli_iters) = ctx.tier.pick((3_000u64, 12u64), (200_000u64, 800u64));
+    let (iters, cli_iters) = ctx.tier.pick((20_000u64, 40u64), (200_000u64, 800u64));
     let inproc = with_stderr_gagged(|| {
         let mut st = Stats::new();
         for k in 1..=2 {
